@@ -92,37 +92,126 @@ BIG = 1 << 62
 _env = {}
 
 
+CONFIGS = ['declared', 'fromdb-tinyint', 'fromdb-int', 'addcolumn', 'dbname', 'inherit']
+
+
+def _fill(cfg, raw_of):
+    """the 25 rows are written with bound parameters, straight to the tables: exact, and independent of the class
+    under test (its validators, its sqlrepr)"""
+    rows = []
+    for a in VALS:
+        for b in VALS:
+            rows.append((len(rows) + 1, a, b, FVALS[len(rows) % len(FVALS)]))
+    raw = raw_of(cfg['conn'])
+    for table, cols in cfg['fill']:
+        sql = 'INSERT INTO %s (%s) VALUES (%s)' % (table, ', '.join(c for c, _ in cols), ', '.join('?' for _ in cols))
+        for rid, a, b, f in rows:
+            vals = {'id': rid, 'a': a, 'b': b, 'f': f}
+            raw.execute(sql, tuple(vals[k] if k in vals else k[1:] for _, k in cols))
+    raw.commit()
+    return rows
+
+
 def env():
+    """several ways of getting a class and its `q` fields — the property must hold for each:
+    declared columns; columns read from an existing table (sqlmeta.fromDatabase) whose integer columns are spelled
+    TINYINT(1) / SMALLINT resp. INT(11) / BIGINT; columns added after the class statement (sqlmeta.addColumn);
+    explicit dbName / table name; a child of an InheritableSQLObject whose columns live in two tables.
+    Every table holds the same 25 rows (same ids)."""
     if _env:
         return _env
     sqlo.setup()
-    from sqlobject import SQLObject, IntCol
-    conn = sqlo.mem_conn()
-    name = sqlo.uniq('C03T')
-    from sqlobject import FloatCol
-    cls = type(name, (SQLObject,), {'_connection': conn, 'a': IntCol(default=None), 'b': IntCol(default=None),
-                                    'f': FloatCol(default=None)})
+    from sqlobject import SQLObject, IntCol, FloatCol
+    from sqlobject.inheritance import InheritableSQLObject
+    from sqlobject.sqlbuilder import sqlrepr
+    conn = sqlo.mem_conn()          # shared by the first four configurations (a second class on the same connection)
+    conn2 = sqlo.mem_conn()
+    cfgs = []
+
+    def add(name, cls, conn_, table=None, rawfrom=None, fill=None):
+        table = table or cls.sqlmeta.table
+        cfgs.append({'name': name, 'cls': cls, 'conn': conn_, 'table': table,
+                     'fill': fill or [(table, [('id', 'id'), ('a', 'a'), ('b', 'b'), ('f', 'f')])],
+                     'rawfrom': rawfrom or ('SELECT id, %%s FROM %s ORDER BY id' % table)})
+
+    cls = type(sqlo.uniq('C03T'), (SQLObject,), {'_connection': conn, 'a': IntCol(default=None), 'b': IntCol(default=None),
+                                                 'f': FloatCol(default=None)})
     cls.createTable()
-    rows = []
+    add('declared', cls, conn)
+    for name, tbl, ta, tb, tf in (('fromdb-tinyint', 'c03_shared_flags', 'TINYINT(1)', 'SMALLINT', 'REAL'),
+                                  ('fromdb-int', 'c03_shared_ints', 'INT(11)', 'BIGINT', 'FLOAT')):
+        conn.query('CREATE TABLE %s (id INTEGER PRIMARY KEY AUTOINCREMENT, a %s, b %s, f %s)' % (tbl, ta, tb, tf))
+        meta = type('sqlmeta', (), {'fromDatabase': True, 'table': tbl})
+        cls = type(sqlo.uniq('C03Db'), (SQLObject,), {'_connection': conn, 'sqlmeta': meta})
+        add(name, cls, conn)
+    cls = type(sqlo.uniq('C03Add'), (SQLObject,), {'_connection': conn})
+    cls.sqlmeta.addColumn(IntCol('a', default=None))
+    cls.sqlmeta.addColumn(FloatCol('f', default=None))
+    cls.sqlmeta.addColumn(IntCol('b', default=None))
+    cls.createTable()
+    add('addcolumn', cls, conn)
+    meta = type('sqlmeta', (), {'table': 'c03_Named'})
+    cls = type(sqlo.uniq('C03Nm'), (SQLObject,), {'_connection': conn2, 'sqlmeta': meta, 'a': IntCol(default=None, dbName='first_val'),
+                                                  'b': IntCol(default=None, dbName='SecondVal'),
+                                                  'f': FloatCol(default=None, dbName='real_val')})
+    cls.createTable()
+    add('dbname', cls, conn2, fill=[('c03_Named', [('id', 'id'), ('first_val', 'a'), ('SecondVal', 'b'), ('real_val', 'f')])])
+    parent = type(sqlo.uniq('C03Par'), (InheritableSQLObject,), {'_connection': conn2, 'a': IntCol(default=None)})
+    child = type(sqlo.uniq('C03Chi'), (parent,), {'_connection': conn2, 'b': IntCol(default=None), 'f': FloatCol(default=None)})
+    parent.createTable()
+    child.createTable()
+    pt, ct = parent.sqlmeta.table, child.sqlmeta.table
+    add('inherit', child, conn2, table=ct,
+        fill=[(pt, [('id', 'id'), ('a', 'a'), ('child_name', '=' + child.__name__)]), (ct, [('id', 'id'), ('b', 'b'), ('f', 'f')])],
+        rawfrom='SELECT %s.id, %%s FROM %s, %s WHERE %s.id = %s.id ORDER BY %s.id' % (pt, pt, ct, pt, ct, pt))
+    assert [c['name'] for c in cfgs] == CONFIGS
+    colmap = {}
+    rows = None
+    for cfg in cfgs:
+        r = _fill(cfg, lambda c: c.getConnection())
+        assert rows is None or r == rows, 'the configurations must hold the same rows'
+        rows = r
+        q = cfg['cls'].q
+        colmap.update({sqlrepr(q.a, 'sqlite'): 'c0', sqlrepr(q.b, 'sqlite'): 'c1', sqlrepr(q.f, 'sqlite'): 'c2'})
+        cfg['conn'].cache.clear()
     raw = conn.getConnection()
-    for a in VALS:
-        for b in VALS:
-            o = cls(a=a, b=b)
-            f = FVALS[len(rows) % len(FVALS)]
-            # the REAL column is filled through a bound parameter: exact, and independent of sqlrepr
-            raw.execute('UPDATE %s SET f = ? WHERE id = ?' % cls.sqlmeta.table, (f, o.id))
-            rows.append((o.id, a, b, f))
-    raw.commit()
     # the float literals the run uses must be decoded exactly by this SQLite (its text->double conversion is not ours)
     for m in FMAG:
         ok = raw.execute('SELECT %s = ?, typeof(%s)' % (repr(m), repr(m)), (m,)).fetchone()
         assert ok == (1, 'real'), ('SQLite does not decode %r exactly' % m, ok)
-    conn.releaseConnection(raw)
-    conn.cache.clear()
-    from sqlobject.sqlbuilder import sqlrepr
-    colmap = {sqlrepr(cls.q.a, 'sqlite'): 'c0', sqlrepr(cls.q.b, 'sqlite'): 'c1', sqlrepr(cls.q.f, 'sqlite'): 'c2'}
-    _env.update(conn=conn, cls=cls, rows=rows, colmap=colmap, table=cls.sqlmeta.table)
+    _env.update(cfgs=cfgs, rows=rows, colmap=colmap)
+    set_cfg(0)
     return _env
+
+
+def _cols(t, in_list, acc):
+    if isinstance(t, list):
+        for x in t:
+            _cols(x, True, acc)
+    elif isinstance(t, tuple):
+        if t[0] == 'c':
+            acc.add((t[1], in_list))
+        else:
+            for x in t[1:]:
+                _cols(x, in_list, acc)
+
+
+def child_only_in_lists(t):
+    """columns of the CHILD table (b, f) occur in the tree, but only inside IN-lists.  sqlbuilder's tablesUsed does not look
+    into list operands, so the inheritance select leaves the child table (and the join) out and SQLite reports
+    'no such column' — loud, and a matter of the inheritance select rather than of expression rendering: such trees are
+    run on another configuration; see the directed probe in run()."""
+    acc = set()
+    _cols(t, False, acc)
+    inside = {c for c, l in acc if l and c in (1, 2)}
+    outside = {c for c, l in acc if not l and c in (1, 2)}
+    return bool(inside) and not outside
+
+
+def set_cfg(i):
+    """make configuration i the current one (class, connection, table used by build_real / run_impl)"""
+    c = _env['cfgs'][i]
+    _env.update(cfg=i, cfgname=c['name'], cls=c['cls'], conn=c['conn'], table=c['table'], rawfrom=c['rawfrom'])
 
 
 # --------------------------------------------------------------------------- trees
@@ -181,20 +270,20 @@ def size(t):
     return n
 
 
-_subq = []
+_subq = {}
 
 
 def subqueries():
     """fixed sub-selects over column b for the oracle-only IN-subquery stream: (Select, values)"""
-    if not _subq:
+    e = env()
+    if e['cfg'] not in _subq:
         from sqlobject import sqlbuilder as sb
-        e = env()
         q = e['cls'].q
         bs = [b for _, _, b, _ in e['rows']]
-        _subq.append((sb.Select([q.b], where=(q.b != None)), [b for b in bs if b is not None]))  # noqa: E711
-        _subq.append((sb.Select([q.b]), bs))
-        _subq.append((sb.Select([q.b], where=(q.b > 5)), []))
-    return _subq
+        _subq[e['cfg']] = [(sb.Select([q.b], where=(q.b != None)), [b for b in bs if b is not None]),  # noqa: E711
+                           (sb.Select([q.b]), bs),
+                           (sb.Select([q.b], where=(q.b > 5)), [])]
+    return _subq[e['cfg']]
 
 
 # --------------------------------------------------------------------------- real construction
@@ -641,7 +730,7 @@ def run_impl(t, flip=0):
     txt = res['texts'].get('sqlite', 'error')
     if not txt.startswith('error'):
         try:
-            q = 'SELECT id, %s FROM %s ORDER BY id' % (txt, e['table'])
+            q = e['rawfrom'].replace('%s', txt)
             res['vals'] = [(r[0], r[1]) for r in e['conn'].queryAll(q)]
         except Exception as ex:
             res['vals'] = 'error:%s' % type(ex).__name__
@@ -808,6 +897,80 @@ def run_reuse(tA, tC, flip=0):
     except Exception as ex:
         fails.append(('reuse-error', 're-using / deriving raised %s: %s' % (type(ex).__name__, ex)))
     return fails
+
+# --------------------------------------------------------------------------- clause plumbing and constant conditions
+PYCONSTS = [False, True, 0, 1, 2, -1, 0.0, 0.5, None]
+
+
+def truth_of(c):
+    """SQL truth value of a plain Python constant used as a condition (None renders NULL: unknown)"""
+    return None if c is None else bool(c)
+
+
+def run_plumbing(tA, C, flip=0):
+    """the ways a condition reaches the WHERE clause must agree with the tree: select(A).filter(C), chained filters,
+    select(AND(A, C)) in one piece, sqlbuilder.Select(where=A).filter(C), count(); C is a boolean tree or a plain Python
+    constant (False from a switch, 0 from a bit test, AND(*[c]) of a one-element list); tA may be None (select()).
+    `filter(None)` is the documented no-op.  Oracle: three-valued evaluation.  Returns [(kind, text)] or None."""
+    from sqlobject import sqlbuilder as sb
+    from sqlobject.sqlbuilder import sqlrepr
+    e = env()
+    cls, conn = e['cls'], e['conn']
+    const = not isinstance(C, tuple)
+    try:
+        va = [True if tA is None else ev(tA, (a, b, f)) for _, a, b, f in e['rows']]
+        vc = [truth_of(C) if const else ev(C, (a, b, f)) for _, a, b, f in e['rows']]
+    except Overflow:
+        return None
+    ids = [rid for rid, _, _, _ in e['rows']]
+    both = sorted(rid for rid, x, y in zip(ids, va, vc) if and3([x, y]) is True)
+    either = sorted(rid for rid, x, y in zip(ids, va, vc) if or3([y, x]) is True)
+    only_a = sorted(rid for rid, x in zip(ids, va) if x is True)
+    notc = sorted(rid for rid, x, y in zip(ids, va, vc) if and3([x, not3(y)]) is True)
+    filt = only_a if (const and C is None) else both        # filter(None) does not filter
+    try:
+        A = None if tA is None else build_real(tA, flip)
+        Cx = C if const else build_real(C, flip)
+    except Exception:
+        return []
+    fails = []
+    label = 'A = %s, C = %s' % ('-' if tA is None else ser(tA), repr(C) if const else ser(C))
+
+    def ids_of(sel):
+        return sorted(o.id for o in sel)
+
+    def check(kind, what, got, want):
+        if got != want:
+            fails.append((kind, '%s returns ids %s, the tree selects %s (%s)' % (what, got[:40], want, label)))
+
+    try:
+        base = cls.select(A)
+        r = base.filter(Cx)
+        check('filter', 'select(A).filter(C)', ids_of(r), filt)
+        n = r.count()
+        if n != len(filt):
+            fails.append(('filter-count', 'select(A).filter(C).count() is %d, the tree is true for %d rows (%s)' % (n, len(filt), label)))
+        check('filter-base-after', 'select(A) after .filter(C) was derived from it', ids_of(base), only_a)
+        check('filter-chain', 'select().filter(A).filter(C)', ids_of(cls.select().filter(A).filter(Cx)), filt)
+        check('filter-chain-rev', 'select().filter(C).filter(A)', ids_of(cls.select().filter(Cx).filter(A)), filt)
+        check('filter-connection', 'select(A, connection=conn).filter(C)', ids_of(cls.select(A, connection=conn).filter(Cx)), filt)
+        check('filter-twice', 'select(A).filter(C).filter(C)', ids_of(base.filter(Cx).filter(Cx)), filt)
+        if A is not None:
+            check('and-fn', 'select(AND(A, C))', ids_of(cls.select(sb.AND(A, Cx))), both)
+            check('and-op', 'select(A & C)', ids_of(cls.select(A & Cx)), both)
+            check('or-fn', 'select(OR(C, A))', ids_of(cls.select(sb.OR(Cx, A))), either)
+            check('and-not', 'select(AND(A, NOT(C)))', ids_of(cls.select(sb.AND(A, sb.NOT(Cx)))), notc)
+            check('and-1', 'select(AND(*[A]).filter(AND(*[C])))', ids_of(cls.select(sb.AND(*[A])).filter(sb.AND(*[Cx]))), filt)
+            if e['cfgname'] != 'inherit':      # a bare sqlbuilder.Select knows nothing of the parent/child join
+                raw = sb.Select([cls.q.id], where=A).filter(Cx)
+                got = sorted(x[0] for x in conn.queryAll(sqlrepr(raw, 'sqlite')))
+                check('sqlbuilder-filter', 'sqlbuilder.Select(where=A).filter(C)', got, filt)
+        elif not (const and C is None):
+            check('select-const', 'select(C)', ids_of(cls.select(Cx)), sorted(rid for rid, y in zip(ids, vc) if y is True))
+    except Exception as ex:
+        fails.append(('plumbing-error', 'raised %s: %s (%s)' % (type(ex).__name__, ex, label)))
+    return fails
+
 
 # --------------------------------------------------------------------------- generators
 def leaves_num():
@@ -1085,7 +1248,7 @@ def gen_cases(ctx):
     cases += shapes_depth2(rng, 8 if deep else 3)
     cases += shapes_mixed(rng, 4 if deep else 1)
     cases += shapes_float(rng, 3 if deep else 1)
-    nrand = ctx.budget(9000, 150000)
+    nrand = ctx.budget(7500, 150000)
     for _ in range(nrand):
         cases.append(rnd_bool(rng, rng.choice([2, 3, 3, 4, 4, 5, 6])))
     return cases, n_corpus
@@ -1157,24 +1320,37 @@ def shrink(t, budget=400):
 def run(ctx):
     e = env()
     cases, n_corpus = gen_cases(ctx)
+    ncfg = len(CONFIGS)
     seen = set()
     uniq_cases = []
-    for t in cases:
+    for i, t in enumerate(cases):
         s = ser(t)
-        if s not in seen:
-            seen.add(s)
-            uniq_cases.append((t, s))
+        # the corpus and every direct ==/!= comparison of depth <= 1 (where the column's from_python sees the constant) run on
+        # every class configuration; the other cases on one configuration drawn from the seeded stream
+        if i < n_corpus or (t[0] == 'cmp' and t[1] in ('eq', 'ne') and depth(t) <= 1):
+            on = range(ncfg)
+        else:
+            on = [ctx.rng.randrange(ncfg)]
+        for c in on:
+            if CONFIGS[c] == 'inherit' and child_only_in_lists(t):
+                c = 0
+            if (s, c) not in seen:
+                seen.add((s, c))
+                uniq_cases.append((t, s, c))
     lines = ['rows ' + ' '.join('%s,%s' % ('N' if a is None else a, 'N' if b is None else b) for _, a, b, _ in e['rows'])]
-    for t, s in uniq_cases:
+    for t, s, c in uniq_cases:
         lines.append('e %s %s' % (','.join(DIALECTS), s))
     outs = ctx.model(lines)
     reported = set()
-    for idx, (t, s) in enumerate(uniq_cases):
+    for idx, (t, s, c) in enumerate(uniq_cases):
+        set_cfg(c)
+        at = '' if c == 0 else '@' + CONFIGS[c]
         res = run_impl(t, flip=idx)
         fails = oracle(t, res)
         d = depth(t)
-        ctx.case(s, nontrivial=d >= 2, kind='depth%d' % d,
-                 sample={'tree': s, 'sqlite': res['texts'].get('sqlite'), 'ids': res['ids']})
+        ctx.case((s, c), nontrivial=d >= 2, kind='depth%d' % d,
+                 sample={'tree': s, 'class': CONFIGS[c], 'sqlite': res['texts'].get('sqlite'), 'ids': res['ids']})
+        ctx.count('class:' + CONFIGS[c])
         if fails is None:
             ctx.count('skipped:int64-overflow')
             continue
@@ -1182,14 +1358,15 @@ def run(ctx):
             small = shrink(t)
             sfails = oracle(small, run_impl(small)) or fails
             kind, text = sfails[0]
-            key = 'C03:%s:%s' % (kind, ser(small))
+            key = 'C03:%s%s:%s' % (kind, at, ser(small))
             if key not in reported:
                 reported.add(key)
-                ctx.oracle_fail(key, text, {'tree': to_json(small), 'ser': ser(small)})
+                ctx.oracle_fail(key, text + ('' if c == 0 else ' [class configuration: %s]' % CONFIGS[c]),
+                                {'tree': to_json(small), 'ser': ser(small), 'cfg': CONFIGS[c]})
         if outs is not None:
             impl_outcome = 'rejected' if res.get('build_error') == 'Invalid' else ('error:%s' % res['build_error'] if 'build_error' in res else 'built')
             model_outcome = 'rejected' if outs[idx + 1] == 'rejected' else 'built'
-            ctx.compare('constructor outcome: model coerce = real constructors', {'tree': s}, model_outcome, impl_outcome)
+            ctx.compare('constructor outcome: model coerce = real constructors', {'tree': s, 'class': CONFIGS[c]}, model_outcome, impl_outcome)
             if model_outcome != 'built' or impl_outcome != 'built':
                 continue
             ans = outs[idx + 1].split(' | ')
@@ -1204,7 +1381,7 @@ def run(ctx):
                     toks, prob = tokenise(txt) if not txt.startswith('error:') else (None, txt)
                     tcache[txt] = ' '.join(toks) if toks is not None else 'unlexable(%s): %s' % (prob, txt)
                 impl = tcache[txt]
-                ctx.compare('tokens (%s): model render = sqlrepr' % d_, {'tree': s, 'dialect': d_}, mt, impl)
+                ctx.compare('tokens (%s): model render = sqlrepr' % d_, {'tree': s, 'dialect': d_, 'class': CONFIGS[c]}, mt, impl)
             if has_float(t):
                 # the driver evaluates in the all-integer domain; float trees are tied at the token / parse level,
                 # their meaning is checked by the oracle above (SQLite execution and the reference evaluator)
@@ -1230,6 +1407,10 @@ def run(ctx):
         t = rnd_bool_sub(ctx.rng, ctx.rng.choice([1, 2, 3, 4]))
         if not has_sub(t):
             continue
+        c = ctx.rng.randrange(ncfg)
+        if CONFIGS[c] == 'inherit' and child_only_in_lists(t):
+            c = 0
+        set_cfg(c)
         s = ser(t)
         res = run_impl(t, flip=i)
         fails = oracle(t, res, text_level=False)
@@ -1239,10 +1420,10 @@ def run(ctx):
             continue
         if fails:
             kind, text = fails[0]
-            key = 'C03:subquery-%s:%s' % (kind, s)
+            key = 'C03:subquery-%s%s:%s' % (kind, '' if c == 0 else '@' + CONFIGS[c], s)
             if key not in reported:
                 reported.add(key)
-                ctx.oracle_fail(key, text, {'tree': to_json(t), 'ser': s})
+                ctx.oracle_fail(key, text, {'tree': to_json(t), 'ser': s, 'cfg': CONFIGS[c]})
     # object re-use stream: derive from a base expression / base Select, then use the base again (non-mutation)
     pairs = list(REUSE_DIRECTED)
     for _ in range(ctx.budget(150, 3000)):
@@ -1250,6 +1431,8 @@ def run(ctx):
     for i, (ta, tc) in enumerate(pairs):
         if has_sub(ta) or has_sub(tc) or refused(ta) or refused(tc):
             continue
+        c = ctx.rng.randrange(ncfg - 1)          # not the inheritance pair: a bare sqlbuilder.Select does not join parent and child
+        set_cfg(c)
         fails = run_reuse(ta, tc, flip=i)
         ctx.case('reuse ' + ser(ta) + ' / ' + ser(tc), nontrivial=True, kind='reuse')
         if fails is None:
@@ -1260,7 +1443,47 @@ def run(ctx):
             key = 'C03:reuse-%s' % kind
             if key not in reported:
                 reported.add(key)
-                ctx.oracle_fail(key, text, {'reuse': True, 'tree': to_json(ta), 'filter': to_json(tc), 'ser': ser(ta) + ' / ' + ser(tc)})
+                ctx.oracle_fail(key, text, {'reuse': True, 'tree': to_json(ta), 'filter': to_json(tc), 'ser': ser(ta) + ' / ' + ser(tc),
+                                            'cfg': CONFIGS[c]})
+    # clause plumbing stream: filter() / chained filters / one-piece AND / count(), with boolean trees and with plain
+    # Python constants as conditions (oracle-only: SelectResults and constant conditions are not in the Lean model)
+    plumb = []
+    dirA = [None, ('cmp', 'gt', ('c', 0), ('k', 0)), ('NOT', ('cmp', 'gt', ('c', 1), ('k', 0))), ('eqnone', ('c', 0))]
+    for ta in dirA:
+        for cst in PYCONSTS:
+            plumb.append((ta, cst))
+    for _ in range(ctx.budget(250, 5000)):
+        ta = None if ctx.rng.random() < 0.15 else rnd_bool(ctx.rng, ctx.rng.choice([1, 2, 2, 3]))
+        cc = ctx.rng.choice(PYCONSTS) if ctx.rng.random() < 0.5 else rnd_bool(ctx.rng, ctx.rng.choice([1, 1, 2]))
+        plumb.append((ta, cc))
+    for i, (ta, cc) in enumerate(plumb):
+        if (ta is not None and (has_sub(ta) or refused(ta))) or (isinstance(cc, tuple) and (has_sub(cc) or refused(cc))):
+            continue
+        c = i % ncfg if i < len(dirA) * len(PYCONSTS) * 1 else ctx.rng.randrange(ncfg)
+        if CONFIGS[c] == 'inherit' and ((ta is not None and child_only_in_lists(ta)) or (isinstance(cc, tuple) and child_only_in_lists(cc))):
+            c = 0
+        set_cfg(c)
+        fails = run_plumbing(ta, cc, flip=i)
+        lab = ('-' if ta is None else ser(ta)) + ' / ' + (ser(cc) if isinstance(cc, tuple) else 'const ' + repr(cc))
+        ctx.case('plumbing ' + lab + ' @' + CONFIGS[c], nontrivial=True, kind='plumbing' + ('-const' if not isinstance(cc, tuple) else ''))
+        if fails is None:
+            ctx.count('skipped:int64-overflow')
+            continue
+        if fails:
+            kind, text = fails[0]
+            key = 'C03:plumbing-%s:%s' % (kind, lab)
+            if ('plumbing', kind) not in reported:
+                reported.add(('plumbing', kind))
+                ctx.oracle_fail(key, text, {'plumbing': True, 'tree': to_json(ta), 'cond': to_json(cc) if isinstance(cc, tuple) else None,
+                                            'const': None if isinstance(cc, tuple) else repr(cc), 'ser': lab, 'cfg': CONFIGS[c]})
+    # directed probe (note): a child-table column that occurs only inside an IN-list is invisible to tablesUsed
+    set_cfg(CONFIGS.index('inherit'))
+    w = ('in', ('k', 1), [('c', 1)])
+    wres = run_impl(w)
+    ctx.note('inheritance: Child.select(IN(1, [Child.q.b])) -> %s (tablesUsedSet does not descend into list operands, so the child '
+             'table and its join are left out of FROM) [C03:inherit-child-column-only-in-IN-list]'
+             % ('ids %s' % wres['ids'] if isinstance(wres['ids'], list) else 'raises ' + str(wres['ids'])))
+    set_cfg(0)
     # directed probe of the documented limit of the fragment (a note, not a verdict): a boolean whose text is
     # `NOT …` as the LEFT operand of an IN-subquery is not parenthesised by INSubquery.__sqlrepr__
     w = ('insub', ('b2i', ('NOT', ('cmp', 'eq', ('c', 0), ('k', 1)))), 0)
@@ -1282,6 +1505,16 @@ def to_json(t):
 
 def replay(case):
     env()
+    if case.get('cfg') in CONFIGS:
+        set_cfg(CONFIGS.index(case['cfg']))
+    if case.get('plumbing'):
+        ta = None if case['tree'] is None else from_json(case['tree'])
+        cc = from_json(case['cond']) if case.get('cond') is not None else eval(case['const'], {'__builtins__': {}}, {})
+        fails = run_plumbing(ta, cc)
+        text = 'class configuration: %s\n%s\n' % (case.get('cfg'), case.get('ser'))
+        if fails:
+            text += '\n'.join('%s: %s' % f for f in fails)
+        return not fails, text
     t = from_json(case['tree'])
     if case.get('reuse'):
         tc = from_json(case['filter'])
